@@ -107,6 +107,12 @@ func (b *Buffer) window(e ast.Expr) (lo lin.Form, whole, ok bool) {
 	if IsObj(info, b.Obj)(e) {
 		return lin.Form{Coef: map[string]int64{}}, true, true
 	}
+	// a local that names a slice of the buffer: `tail := b[n:]`
+	if id, isID := e.(*ast.Ident); isID {
+		if d := ValueOf(info, b.Body, id); d != ast.Expr(id) {
+			return b.window(d)
+		}
+	}
 	if se, isSlice := e.(*ast.SliceExpr); isSlice && IsObj(info, b.Obj)(se.X) && se.Max == nil {
 		lo = lin.Form{Coef: map[string]int64{}}
 		if se.Low != nil {
@@ -227,7 +233,14 @@ func (b *Buffer) AtLeast(k int64) func(cfgq.Fact) bool {
 
 // Understood: the fact is an interpreted statement about the buffer's bytes or length.
 func (b *Buffer) Understood(f cfgq.Fact) bool {
-	if _, _, ok := b.facts(f); ok {
+	if bs, _, ok := b.facts(f); ok {
+		// a byte fact is only understood when its index can be compared with the buffer's length:
+		// the same variables, differing by a constant. Otherwise it may or may not be the byte asked for.
+		for _, x := range bs {
+			if !(lin.Form{Coef: x.idx.Coef}).Equal(lin.Form{Coef: b.Length.Coef}) && len(x.idx.Coef) > 0 {
+				return false
+			}
+		}
 		return true
 	}
 	return LinAbout(b.Info, f, b.Length)
@@ -259,4 +272,77 @@ func (b *Buffer) LenIs(k int64) func(cfgq.Fact) bool {
 		}
 		return false
 	}
+}
+
+// ConstBytes reports the constant byte string an expression denotes
+// (`"..."`, `[]byte("...")`, `[]byte{'a', 'b'}`, or a local defined as one).
+func ConstBytes(info *types.Info, body ast.Node, e ast.Expr) ([]byte, bool) {
+	return (&Buffer{Info: info, Body: body}).constBytes(e)
+}
+
+// CountingLoop recognises `for i := 0; i < BOUND; i++` (any spelling of the
+// condition that says i < BOUND for one of the given linear bounds, the index
+// possibly declared together with other variables) and returns the index.
+func CountingLoop(info *types.Info, l *ast.ForStmt, bounds ...lin.Form) types.Object {
+	as, ok := l.Init.(*ast.AssignStmt)
+	if !ok || l.Cond == nil || l.Post == nil || len(as.Lhs) != len(as.Rhs) {
+		return nil
+	}
+	var idx types.Object
+	for i, lh := range as.Lhs {
+		if v, isC := core.IntConst(info, as.Rhs[i]); isC && v == 0 {
+			switch p := l.Post.(type) {
+			case *ast.IncDecStmt:
+				if p.Tok == token.INC && sameIdent(info, p.X, lh) {
+					idx = Obj(info, lh)
+				}
+			case *ast.AssignStmt:
+				if p.Tok == token.ADD_ASSIGN && len(p.Lhs) == 1 && len(p.Rhs) == 1 && sameIdent(info, p.Lhs[0], lh) {
+					if k, isK := core.IntConst(info, p.Rhs[0]); isK && k == 1 {
+						idx = Obj(info, lh)
+					}
+				}
+			}
+		}
+	}
+	if idx == nil {
+		return nil
+	}
+	iid := ast.NewIdent(idx.Name())
+	info.Uses[iid] = idx
+	cmp, ok := lin.CmpOf(info, l.Cond, true)
+	if !ok {
+		return nil
+	}
+	want := lin.Of(info, iid)
+	for _, bd := range bounds {
+		w := lin.Form{Coef: map[string]int64{}, Const: want.Const - bd.Const}
+		for k, v := range want.Coef {
+			w.Coef[k] += v
+		}
+		for k, v := range bd.Coef {
+			w.Coef[k] -= v
+			if w.Coef[k] == 0 {
+				delete(w.Coef, k)
+			}
+		}
+		if cmp.Is(w, token.LSS) {
+			return idx
+		}
+	}
+	return nil
+}
+
+func sameIdent(info *types.Info, a, b ast.Expr) bool {
+	oa, ob := Obj(info, a), Obj(info, b)
+	return oa != nil && oa == ob
+}
+
+// LenForm is the linear form (an atom) of len(obj).
+func LenForm(info *types.Info, obj types.Object) lin.Form {
+	ln := ast.NewIdent("len")
+	info.Uses[ln] = types.Universe.Lookup("len")
+	id := ast.NewIdent(obj.Name())
+	info.Uses[id] = obj
+	return lin.Of(info, &ast.CallExpr{Fun: ln, Args: []ast.Expr{id}})
 }
